@@ -20,6 +20,18 @@ CLAIMS = {
         'store at the write counter which is incremented exactly once and returned, and that positions/velocities of the three axes have one consistent cell-relative polynomial form.',
    note='The repository has no independent description of the pack9 constants: the oracle is internal consistency plus the property statement. Float rounding not modelled.',
    design_ref='DESIGN.md section 4, C15'),
+ 'C05': dict(
+   technique='static analysis: partial evaluation of the regex-dispatched loaders over match groups + exact polynomial (units-of-measure) normal form per column, compared with a reviewed class table',
+   text='Decides the scaling law of every halo column of the literal dtype tables, for every stored value and every (BoxSize, VelZSpace_to_kms): length = raw*B, velocity = raw*Z, '
+        'ratio = i16*ref/32000*conv(ref), sigmavMid^2 = sigmav3d^2-Maj^2-Min^2 homogeneous in Z^2, integers/dimensionless unchanged; the convert_units switch binds (B,Z) to the header keys or to (1,1).',
+   note='Columns whose class the statement does not fix (sigman, *_mainprog, light-cone columns) are computed and reported but not asserted. Values in files and astropy casting are not modelled.',
+   design_ref='DESIGN.md section 4, C05'),
+ 'C02': dict(
+   technique='static analysis: regex/loader table totality, partial-evaluated dependency graph, allocation key agreement, stale-loop-variable lint, guarded set inclusion (required columns subset of ensured columns per configuration)',
+   text='Decides the request-independence mechanisms: exactly one loader per column; loader dependencies valid and acyclic with the requested key always returned; temporary columns typed by their own '
+        'name; no stale loop variable; for every (cleaned, loaded subsamples) configuration the index columns read by the subsample code are force-added; loaders are pure.',
+   note='Not decided: astropy casting on assignment, file contents, numeric equality between two loads (follows from the mechanisms, argued not checked).',
+   design_ref='DESIGN.md section 4, C02'),
 }
 _NB = 'rule family not built yet in this session (claimed only once its checker exists; see DESIGN.md section 4)'
 NOT_APPLICABLE = {f'C{n:02d}': _NB for n in range(1, 21) if f'C{n:02d}' not in CLAIMS}
